@@ -55,14 +55,14 @@ VARIABLES conf,      \* [flag, tps (ticks = seconds per slot), start (slot), off
           subs,      \* key -> stored submission (with ghost fields id, seen, fresh)
           comms,     \* the cache inclusionCore.beaconCommittees: slot -> sequence of committee sizes (committee index i at i+1)
           checked,   \* checkedSlot of Run
-          run,       \* the loop of Run: [pc, slot, idx, duties, blk, need]
+          run,       \* the loop of Run: [pc, slot, idx, nidx, duties, blk, need]
           out,       \* the reports made by the last action (callbacks are invoked inside the critical sections)
           done, nid, lost, over   \* ghost: ids reported so far, last id, ids dropped without a report, ids replaced
 vars == <<conf, tick, subs, comms, checked, run, out, done, nid, lost, over>>
 
 Key(d) == <<d.typ, d.slot, d.pk>>
 NoBlk == [kind |-> "none", atts |-> <<>>]
-IdleRun == [pc |-> "idle", slot |-> None, idx |-> {}, duties |-> <<>>, blk |-> NoBlk, need |-> <<>>]
+IdleRun == [pc |-> "idle", slot |-> None, idx |-> {}, nidx |-> 0, duties |-> <<>>, blk |-> NoBlk, need |-> <<>>]
 
 InitWith(c) == /\ conf = c /\ tick = 0 /\ subs = <<>> /\ comms = <<>> /\ checked = 0 /\ run = IdleRun /\ out = {}
                /\ done = {} /\ nid = 0 /\ lost = {} /\ over = {}
@@ -191,9 +191,11 @@ Tick ==
   /\ run.pc = "idle"
   /\ tick' = tick + 1
   /\ LET s == CurSlot(tick + 1) - CheckLag           \* uint64 in the code: negative here = wrapped around there
-         idx == {subs[k].v : k \in {x \in DOMAIN subs : subs[x].typ = "attester" /\ subs[x].v # None}}
+         ks == {x \in DOMAIN subs : subs[x].typ = "attester" /\ subs[x].v # None}
+         idx == {subs[k].v : k \in ks}          \* the request lists a validator once per stored attestation of it (nidx entries)
      IN run' = IF s = checked THEN run
-               ELSE [IdleRun EXCEPT !.pc = IF conf.flag /\ idx # {} THEN "duties" ELSE "block", !.slot = s, !.idx = idx]
+               ELSE [IdleRun EXCEPT !.pc = IF conf.flag /\ idx # {} THEN "duties" ELSE "block", !.slot = s, !.idx = idx,
+                                    !.nidx = Cardinality(ks)]
   /\ out' = {}
   /\ UNCHANGED <<conf, subs, comms, checked, done, nid, lost, over>>
 (* ans: [err, ds]: ds a sequence of [v, slot, comm, pos] *)
